@@ -121,9 +121,16 @@ func c17Scenario(r *vf.Run, t *testing.T, id string, rng *rand.Rand) {
 	ending := rng.Intn(2)      // 0 EOF, 1 RST
 	k := 1 + rng.Intn(6)
 	g := genOpts{MaxBody: 3000, AllowTrail: true, AllowUnder: true, RespStream: true, AllowStream2: true, MaxRespBody: 40000}
+	var timeouts [3]time.Duration
+	if rng.Intn(2) == 0 {
+		timeouts[0] = []time.Duration{0, time.Second, 4 * time.Second}[rng.Intn(3)]
+		timeouts[1] = []time.Duration{0, 2 * time.Second, 10 * time.Second}[rng.Intn(3)]
+		timeouts[2] = []time.Duration{0, time.Second, 3 * time.Second}[rng.Intn(3)]
+	}
+	debugLog := rng.Intn(4) == 0
 	var triggers []string
 	class := ""
-	replay := map[string]any{"family": family, "buf_to_peer": buf, "buf_to_sut": bufIn, "handler_mode": handlerMode, "ending": ending, "requests": k}
+	replay := map[string]any{"family": family, "debug_logging": debugLog, "read_idle_ping_s": []float64{timeouts[0].Seconds(), timeouts[1].Seconds(), timeouts[2].Seconds()}, "buf_to_peer": buf, "buf_to_sut": bufIn, "handler_mode": handlerMode, "ending": ending, "requests": k}
 	failed := false
 	fail := func(rule, detail string) {
 		if !failed {
@@ -134,6 +141,9 @@ func c17Scenario(r *vf.Run, t *testing.T, id string, rng *rand.Rand) {
 	deliberatePanic := false
 	res := rt.RunBubble(t, id, 60*time.Second, func() {
 		so := rt.ServerOpts{BufToPeer: buf, BufToSUT: bufIn, NoHandshake: true}
+		// the server's own clocks run in half of the scenarios: request timeout, idle timeout, pings nobody answers
+		so.ReadTimeout, so.IdleTimeout, so.PingInterval = timeouts[0], timeouts[1], timeouts[2]
+		so.Debug = debugLog // the server's debug logging formats peer-controlled values: it must survive them too
 		e := rt.NewServerEnv(id, so)
 		currentHarness.Store(e.H)
 		defer currentHarness.Store(nil)
@@ -351,7 +361,10 @@ func c17Scenario(r *vf.Run, t *testing.T, id string, rng *rand.Rand) {
 		fail("goroutine-stuck-for-ever", "the bubble ended with goroutines that can never run again (synctest deadlock)")
 	}
 	r.Mark("families", family)
-	r.Eval(vf.Hash(family, class, buf, bufIn, handlerMode, ending), true)
+	r.Eval(vf.Hash(family, class, buf, bufIn, handlerMode, ending, timeouts[0] > 0, timeouts[1] > 0, timeouts[2] > 0), true)
+	if timeouts[0]+timeouts[1]+timeouts[2] > 0 {
+		r.Inc("scenarios_with_server_timers_running", 1)
+	}
 	if r.WantSample() {
 		r.Sample(replay)
 	}
